@@ -11,6 +11,7 @@ def main (args : List String) : IO UInt32 := do
   | "C08sys" :: rest => Driver.C08.mainSys rest; return 0
   | "C09" :: rest => Driver.Mux.main rest; return 0
   | "C11" :: rest => Driver.Mux.main rest; return 0
+  | "C09late" :: rest => Driver.Mux.mainLate rest; return 0
   | _ =>
     IO.eprintln "usage: hopmodel <Cxx> [--spec] < ops.txt > model.txt"
     return 2
